@@ -194,4 +194,95 @@ theorem C02_source_refuses_overlong (env : Env) (f : FieldCfg) (ext : Rt.SB → 
     have : 10 ^ f.prefixLen ≤ b.length := by simp only [Rt.sbLen] at hlen; exact_mod_cast hlen
     simp only [ofSB, encodeTail, hne, if_false, if_pos this]
 
+/-! ### the framing of one element on decode (C08) -/
+
+/-- the codec's decoder as the translated code calls it: `bytes.decode(encoding)`, UnicodeDecodeError when a byte has
+    no character -/
+def decoderOf (env : Env) : Bytes → Outcome Text := fun b =>
+  match env.codec.decode b with
+  | some t => .ok t
+  | none => .escape .unicodeError
+
+/-- the first statements of `_iso8583_to_field` (up to `field_processor = …`): declared length, refusals, the slice —
+    the element's bytes and the message increment -/
+theorem field_frame_eq (env : Env) (f : FieldCfg) (data : Bytes) (hk : env.classes = Gen.intClasses) :
+    Src._iso8583_to_field_frame (toRt f) data (decoderOf env) =
+      Outcome.bind (fieldLength env f data) (fun flen =>
+        .ok ((data.drop f.prefixLen).take flen, ((flen + f.prefixLen : Nat) : Int))) := by
+  unfold Src._iso8583_to_field_frame
+  simp only [get_field_length_eq]
+  have hL : (toRt f).field_length = (f.length : Int) := rfl
+  rw [hL]
+  by_cases h0 : f.prefixLen = 0
+  · have c : ¬ (decide (((f.prefixLen : Nat) : Int) > (0 : Int)) = true) := by simp [h0]
+    rw [if_neg c]
+    simp only [fieldLength, h0, if_true, bind_ok_eq]
+    have hs := slice_nat data 0 (0 + f.length) (by omega)
+    rw [Int.natCast_add] at hs
+    rw [hs]
+    simp
+  · have c : decide (((f.prefixLen : Nat) : Int) > (0 : Int)) = true := by
+      apply decide_eq_true; omega
+    rw [if_pos c]
+    simp only [fieldLength, h0, if_false]
+    rw [slice_to _ _ (by omega)]
+    simp only [Int.toNat_natCast, decoderOf]
+    cases hd : env.codec.decode (data.take f.prefixLen) with
+    | none => rfl
+    | some t =>
+      simp only [Rt.catchData, bind_ok_eq, Rt.intOfStr, ← hk]
+      cases hi : pyInt env.classes t with
+      | none => rfl
+      | some i =>
+        cases i with
+        | negSucc n =>
+          simp only [bind_ok_eq]
+          have : decide (Int.negSucc n < (0 : Int)) = true := by apply decide_eq_true; omega
+          rw [if_pos this]
+          rfl
+        | ofNat n =>
+          simp only [bind_ok_eq]
+          have : ¬ (decide (Int.ofNat n < (0 : Int)) = true) := by
+            intro hc
+            have h1 := of_decide_eq_true hc
+            have h2 : (0 : Int) ≤ Int.ofNat n := Int.natCast_nonneg n
+            omega
+          rw [if_neg this]
+          have hs := slice_nat data f.prefixLen (f.prefixLen + n) (by omega)
+          simp only [Int.natCast_add] at hs
+          have e : Int.ofNat n = (n : Int) := rfl
+          rw [e, hs]
+          simp only [Nat.add_sub_cancel_left, Int.natCast_add]
+
+/-- C08 (framing) for the TRANSLATED code: whenever the framing statements return, the element's bytes are exactly the
+    declared number of bytes right after the prefix and the message pointer moves forward by that number plus the
+    prefix width — it never moves backwards and two elements never share bytes -/
+theorem C08_source_frame (env : Env) (f : FieldCfg) (data raw : Bytes) (inc : Int) (hk : env.classes = Gen.intClasses)
+    (h : Src._iso8583_to_field_frame (toRt f) data (decoderOf env) = .ok (raw, inc)) :
+    ∃ n : Nat, fieldLength env f data = .ok n ∧ raw = (data.drop f.prefixLen).take n ∧
+      inc = ((n + f.prefixLen : Nat) : Int) ∧ raw.length ≤ n := by
+  rw [field_frame_eq env f data hk] at h
+  cases hf : fieldLength env f data with
+  | ok n =>
+    rw [hf, bind_ok_eq] at h
+    simp only [Outcome.ok.injEq, Prod.mk.injEq] at h
+    refine ⟨n, rfl, h.1.symm, h.2.symm, ?_⟩
+    rw [← h.1]
+    simp [List.length_take]
+    omega
+  | dataError => rw [hf] at h; simp [Outcome.bind] at h
+  | escape k => rw [hf] at h; simp [Outcome.bind] at h
+  | diverge => rw [hf] at h; simp [Outcome.bind] at h
+
+/-- … and a length prefix that `int()` reads as a negative number (b'-2', b'-07') is refused with the library's data
+    error by the TRANSLATED code -/
+theorem C08_source_negative_refused (env : Env) (f : FieldCfg) (data : Bytes) (t : Text) (n : Nat)
+    (hk : env.classes = Gen.intClasses) (hp : 0 < f.prefixLen)
+    (hd : env.codec.decode (data.take f.prefixLen) = some t) (hi : pyInt env.classes t = some (Int.negSucc n)) :
+    Src._iso8583_to_field_frame (toRt f) data (decoderOf env) = .dataError := by
+  rw [field_frame_eq env f data hk]
+  have h0 : ¬ (f.prefixLen = 0) := by omega
+  simp only [fieldLength, h0, if_false, hd, hi]
+  rfl
+
 end Cardutil.SrcTie
